@@ -6,6 +6,8 @@ import (
 	"os"
 	"path/filepath"
 	"regexp"
+	"sync/atomic"
+	"time"
 
 	"github.com/fsnotify/fsnotify"
 
@@ -234,12 +236,30 @@ func c10Overflow(c *core.Ctx, idx int) {
 				os.Remove(p)
 			}
 		}
+		// subsequent events queued behind the still unread overflow marker (the consumer first
+		// takes 4000 events so that the kernel accepts notifications again)
+		base0 := atomic.LoadInt64(&s.Received)
+		s.Pause(false)
+		for i := 0; i < 200000 && atomic.LoadInt64(&s.Received)-base0 < 4000; i++ {
+			time.Sleep(50 * time.Microsecond)
+		}
+		s.Pause(true)
+		var probes []string
+		for k := 0; k < 4; k++ {
+			pp := filepath.Join(d, fmt.Sprintf("behind-marker-r%d-%d", round, k))
+			os.WriteFile(pp, nil, 0o644)
+			probes = append(probes, pp)
+		}
 		ok2, dump := s.Barrier()
 		if !ok2 {
 			c.Violate("overflow-not-survived", fmt.Sprintf("round %d: no sentinel delivered after the overflow (%s)", round, hangClass(dump)), dumpExcerpt(dump))
 			return
 		}
 		_, got, errs := s.Take()
+		seenProbe := map[string]bool{}
+		for _, e := range got {
+			seenProbe[e.Name] = true
+		}
 		c.Count("events_received", int64(len(got)))
 		nOvf := 0
 		for _, e := range errs {
@@ -253,6 +273,15 @@ func c10Overflow(c *core.Ctx, idx int) {
 		c.Count("overflow_errors_seen", int64(nOvf))
 		c.Eval(1)
 		c.Distinct("ovf", idx, round)
+		if nOvf == 1 {
+			for _, pp := range probes {
+				c.Count("events_behind_the_overflow_marker_checked", 1)
+				if !seenProbe[pp] {
+					c.Violate("lost-after-overflow", fmt.Sprintf("round %d: a change made while the overflow marker was still unread, after part of the queue had been consumed, was never delivered (%s); one ErrEventOverflow", round, filepath.Base(pp)), nil)
+					break
+				}
+			}
+		}
 		if nOvf == 0 {
 			c.Violate("overflow-not-announced", fmt.Sprintf("round %d: %d notifications queued with a paused consumer (limit %d), %d events delivered, no ErrEventOverflow", round, total*3/2, mq, len(got)), nil)
 		}
